@@ -11,7 +11,8 @@ EXPLANATION = ("R04.1 the close and partial-close replies succeed only with bad_
                "close path stores unrealized_pnl = 0 and open_notional = position.notional in the in-flight record; R04.4 the "
                "liquidation reply uses the same margin_delta table; R04.5 whoever emits an insurance-fund Withdraw for a shortfall adds "
                "exactly that amount to State.prepaid_bad_debt, and every handler that lets State be mutated stores it afterwards. R04.8 the vault balance that sizes insurance draws and payouts is the engine's own balance of config.eligible_collateral (balance query arms and every call site); R04.9 open-notional bookkeeping on increase."
-               " R04.10 both close replies settle on the stored record loaded under the in-flight key.")
+               " R04.10 both close replies settle on the stored record loaded under the in-flight key."
+               " R04.11 a partial close / reduce realises tmp.unrealized_pnl * |output| / |position.size|.")
 NOT_DECIDED = "numeric exactness beyond formula identity; vault and insurance balances themselves."
 
 
